@@ -471,6 +471,7 @@ class Machine(Interp):
 
     def comprehension_unbounded(self, n, g, src, sub, kind):
         """[elt for tgt in <unbounded> (if cond)] -> lazily mapped / filtered SymList"""
+        src = SymList(src.etype, src.length, src.getter)  # the view is of the list as it is NOW (later mutations do not show)
 
         def elem(i):
             e2 = Env(sub.module, {}, [sub.locals] + sub.parents, sub.func, sub.selfcls)
@@ -510,6 +511,12 @@ class Machine(Interp):
         _, cj = elem(j)
         cj = z3.And(*cj) if cj else z3.BoolVal(True)
         self.assume(z3.ForAll([j], z3.Implies(z3.And(0 <= j, j < src.length, cj), z3.And(0 <= inv(j), inv(j) < m, idx(inv(j)) == j))))
+        # consequences of "idx is a strictly increasing map of [0,m) into [0,n)" that need induction
+        # (stated as lemmas; they are part of the trusted comprehension summary):
+        self.assume(z3.ForAll([i], z3.Implies(z3.And(0 <= i, i < m), idx(i) >= i)))
+        self.assume(z3.Implies(m == src.length, z3.ForAll([i], z3.Implies(z3.And(0 <= i, i < m), idx(i) == i))))
+        self.assume(z3.Implies(m == src.length, z3.ForAll([j], z3.Implies(z3.And(0 <= j, j < src.length), cj))))
+        self.assumption_notes.add("comprehension summary: filter = strictly increasing index injection hitting exactly the selected positions (incl. the lemmas idx(i) >= i and full length => identity)")
         return SymList(None, m, lambda k: elem(idx(k))[0])
 
     def symset_of_list(self, lst, n):
